@@ -33,7 +33,7 @@ func zzH06_pushIterators() {
 	generic := op == 6 || op == 7
 	k := zzC06MakeK(kind, n)
 	frozen, c0 := zzBool("frozen"), zzU32("c0")
-	zzAssume(zzAnd(c0 >= 2, c0 < 1<<31))
+	zzAssume(c0 < 1<<31)
 	var flag *bool
 	switch kind {
 	case 0:
